@@ -4,7 +4,7 @@ set -e
 cd "$(dirname "$0")"
 export CARGO_NET_OFFLINE=true
 python3 tools/extract.py
-( cd lean && lake build FancyModel fmdriver )
+( cd lean && lake build FancyModel fmdriver fmparse )
 ( cd lean && for f in FancyModel/Proofs/C[0-9]*.lean; do [ -e "$f" ] && lake build "FancyModel.Proofs.$(basename "$f" .lean)"; done; true )
 cp /repo/Cargo.lock harness/Cargo.lock
 ( cd harness && cargo build --release --offline )
